@@ -21,11 +21,22 @@ namespace DD
 
 /-! ### outcomes of calls that may be rejected half-way -/
 
-/-- the call ended with an exception in `E`, or — returned or raised, and then not the
-schedule report — in a state satisfying `Q` -/
+/-- the exceptions a refused reordering call raises: `ValueError`, `KeyError`, and the
+`UnboundLocalError` of sifting a manager without variables — never an assertion, never the
+internal signal -/
+def RejErr (e : Err) : Prop := e = .value ∨ e = .key ∨ e = .other
+
+theorem RejErr.ne_sched {e : Err} (h : RejErr e) : e ≠ .sched := by
+  rcases h with rfl | rfl | rfl <;> decide
+
+theorem RejErr.ne_signal {e : Err} (h : RejErr e) : e ≠ .needsReordering := by
+  rcases h with rfl | rfl | rfl <;> decide
+
+/-- the call ended with an exception in `E`, or — returned, or raised one of `RejErr` — in a
+state satisfying `Q` -/
 def KeepOr {α} (E : Err → Prop) (Q : Mgr → Prop) : Except Err α × Mgr → Prop
   | (.ok _, m') => Q m'
-  | (.error e, m') => E e ∨ (e ≠ .sched ∧ Q m')
+  | (.error e, m') => E e ∨ (RejErr e ∧ Q m')
 
 theorem KeepOr.of_okOr {α} {E : Err → Prop} {Q : α → Mgr → Prop} {Q' : Mgr → Prop}
     {r : Except Err α × Mgr} (h : OkOr E Q r) (hq : ∀ a m', Q a m' → Q' m') : KeepOr E Q' r := by
@@ -41,8 +52,8 @@ theorem KeepOr.mono {α} {E : Err → Prop} {Q Q' : Mgr → Prop} {r : Except Er
   | ok a => exact hq m' h
   | error e => exact h.imp id (fun ⟨a, b⟩ => ⟨a, hq m' b⟩)
 
-/-- a rejected call that is not the schedule report -/
-theorem KeepOr.err {α} {E : Err → Prop} {Q : Mgr → Prop} {e : Err} {m' : Mgr} (he : e ≠ .sched)
+/-- a rejected call -/
+theorem KeepOr.err {α} {E : Err → Prop} {Q : Mgr → Prop} {e : Err} {m' : Mgr} (he : RejErr e)
     (hq : Q m') : KeepOr E Q ((.error e, m') : Except Err α × Mgr) := Or.inr ⟨he, hq⟩
 
 /-- sequencing: an exception of the first part ends the call -/
@@ -66,7 +77,7 @@ theorem KeepOr.total {α} {Q : Mgr → Prop} {r : Except Err α × Mgr} (h : Kee
   | error e =>
     rcases h with h | ⟨h1, h2⟩
     · exact h.elim
-    · exact ⟨h2, fun hh => by cases hh; exact h1 rfl⟩
+    · exact ⟨h2, fun hh => by cases hh; exact h1.ne_sched rfl⟩
 
 /-- when the answer is not the schedule report: the state satisfies `Q` -/
 theorem KeepOr.sched {α} {Q : Mgr → Prop} {r : Except Err α × Mgr} (h : KeepOr SchedErr Q r)
@@ -78,6 +89,30 @@ theorem KeepOr.sched {α} {Q : Mgr → Prop} {r : Except Err α × Mgr} (h : Kee
     rcases h with h | ⟨_, h2⟩
     · exact absurd (by rw [show e = Err.sched from h]) hne
     · exact h2
+
+/-- the answer is never the internal signal `_NeedsReordering` -/
+theorem KeepOr.noSignal {α} {Q : Mgr → Prop} {r : Except Err α × Mgr} (h : KeepOr SchedErr Q r) :
+    r.1 ≠ .error .needsReordering := by
+  obtain ⟨r, m'⟩ := r
+  cases r with
+  | ok a => intro hh; cases hh
+  | error e =>
+    intro hh
+    cases hh
+    rcases h with h | ⟨h1, _⟩
+    · cases h
+    · exact h1.ne_signal rfl
+
+/-- an exception that is returned is one of `ValueError`, `KeyError`, `UnboundLocalError` (or the
+model's schedule report) -/
+theorem KeepOr.rejErr {α} {Q : Mgr → Prop} {r : Except Err α × Mgr} (h : KeepOr SchedErr Q r)
+    (e : Err) (he : r.1 = .error e) : e = .sched ∨ RejErr e := by
+  obtain ⟨r, m'⟩ := r
+  cases r with
+  | ok a => cases he
+  | error e' =>
+    cases he
+    exact h.imp id (fun h => h.1)
 
 section Abs
 variable {E : Err → Prop} {P : Mgr → Prop} {R : Mgr → Mgr → Prop}
@@ -100,12 +135,12 @@ theorem sortStep_keep (S : SwapOK E P R) (order : List (String × Int)) (m : Mgr
   cases hp : order.lookup x with
   | none =>
     simp only [M.bind_eq, M.ofOption_none]
-    exact KeepOr.err (by decide) here
+    exact KeepOr.err (Or.inr (Or.inl rfl)) here
   | some p =>
     cases hq : order.lookup y with
     | none =>
       simp only [M.bind_eq, M.ofOption_some, M.ofOption_none]
-      exact KeepOr.err (by decide) here
+      exact KeepOr.err (Or.inr (Or.inl rfl)) here
     | some q =>
       simp only [M.bind_eq, M.ofOption_some]
       by_cases hgt : p > q
@@ -166,7 +201,7 @@ theorem reorderTo_keep (S : SwapOK E P R) (order : List (String × Int)) (m : Mg
     KeepOr E (fun m' => P m' ∧ R m m' ∧ m'.nvars = m.nvars) (reorder (some order) m) := by
   by_cases hne : m.nvars ≠ order.length
   · rw [reorder_bad_length m order hne]
-    exact KeepOr.err (by decide) ⟨hP, S.refl m, rfl⟩
+    exact KeepOr.err (Or.inl rfl) ⟨hP, S.refl m, rfl⟩
   · show KeepOr E _ (sortToOrder order m)
     unfold sortToOrder
     simp only [M.bind_eq, M.get_eq, hne, if_false]
@@ -257,7 +292,7 @@ theorem swapPublic_keep (S : SwapOK E P R) (m : Mgr) (xa ya : VarOrLevel)
     intro r m' ⟨hP', hR', _, _⟩
     exact ⟨hP', S.trans _ _ _ hRg hR'⟩
   · rw [hbad]
-    exact KeepOr.err (by decide) ⟨hPg, hRg⟩
+    exact KeepOr.err (Or.inl rfl) ⟨hPg, hRg⟩
 
 end Abs
 
@@ -299,7 +334,7 @@ collection, up to the consumed schedule -/
 theorem sift_few_vars (m mg : Mgr) (hgc : collectGarbage none m = (.ok (), mg))
     (hO : OrderOK mg.tbl) (hfew : mg.nvars < 2) :
     (∃ e mb, reorder none m = (.error e, mb) ∧
-      (e = .sched ∨ (e ≠ .sched ∧ ∃ s, mb = { mg with sched := s } ∧ (mg.sched = [] → s = [])))) := by
+      (e = .sched ∨ (RejErr e ∧ ∃ s, mb = { mg with sched := s } ∧ (mg.sched = [] → s = [])))) := by
   show ∃ e mb, applySifting m = (.error e, mb) ∧ _
   unfold applySifting
   rw [M.bind_ok hgc, M.bind_ok (M.get_eq mg)]
@@ -317,7 +352,7 @@ theorem sift_few_vars (m mg : Mgr) (hgc : collectGarbage none m = (.ok (), mg))
     cases names with
     | nil =>
       simp only [List.isEmpty_nil, if_true]
-      exact ⟨.other, _, rfl, Or.inr ⟨by decide, s, rfl, hs0⟩⟩
+      exact ⟨.other, _, rfl, Or.inr ⟨Or.inr (Or.inr rfl), s, rfl, hs0⟩⟩
     | cons v rest =>
       have hrest : rest = [] := by
         cases rest with
@@ -332,7 +367,7 @@ theorem sift_few_vars (m mg : Mgr) (hgc : collectGarbage none m = (.ok (), mg))
       simp only [List.isEmpty_cons, Bool.false_eq_true, if_false]
       unfold siftVars
       rw [M.bind_err (M.bind_err hrv)]
-      exact ⟨.value, _, rfl, Or.inr ⟨by decide, s, rfl, hs0⟩⟩
+      exact ⟨.value, _, rfl, Or.inr ⟨Or.inl rfl, s, rfl, hs0⟩⟩
 
 /-! ### `undeclare_vars`: the counts stay exact -/
 
